@@ -9,6 +9,23 @@ claimed = {
    technique="explicit-state enumeration of all small graphs x roots x starts x depths against a BFS reference model",
    design="5/C15"),
 }
+claimed.update({
+ "C09": dict(
+   text="Bounded exhaustive exploration of the real Union and Add on all ordered pairs (and triples, for associativity) of small node lists including ill-formed ones, against a set-of-triples reference model (nodes, roots united; edges united then restricted to present nodes), with idempotence, commutativity, identity and associativity; attribute precedence on a shared node for every Node field found by reflection, every unordered field pair x 16 emptiness combinations x 2 backgrounds.",
+   note="Trusted: the 20-line set model; associativity asserted wherever the statement's own model is associative (all well-formed triples); id and type excluded from the attribute rule.",
+   technique="explicit enumeration of all pairs/triples of small lists against a set model; reflection-driven attribute cube",
+   design="5/C09"),
+ "C10": dict(
+   text="Bounded exhaustive exploration of the real Intersect on all ordered pairs of small node lists including ill-formed ones: exact node set, two-sided bounds for roots and edges as stated, commutativity, absorption with Union, emptiness; attribute precedence cube by reflection over every Node field.",
+   note="Trusted: the bounds as written in the statement; any result between the bounds is accepted (e.g. roots-in-both only).",
+   technique="explicit enumeration of all pairs of small lists against set bounds; reflection-driven attribute cube",
+   design="5/C10"),
+ "C16": dict(
+   text="Bounded exhaustive exploration of GetMatchingNode on every list of <=3 (thorough 4) node variants x every probe variant x every permutation of the list against the documented rule written as a reference over HashesMatch, plus membership and order independence; plain lookups (id, name, identifier spelling x value, roots, purl type) against filter references on all small lists and permutations.",
+   note="Trusted: the reference rule (validated against the implementation on every non-ambiguous case); empty-valued hash entries only get membership/uniqueness/order-independence; runtime map order is not enumerated.",
+   technique="explicit enumeration of lists x probes x permutations against a documented-rule reference",
+   design="5/C16"),
+})
 pending = {}
 all_ids = ["C%02d" % i for i in range(1, 21)]
 checks = []
